@@ -421,10 +421,27 @@ class WsgiApplication(HttpBase):
             p_ctx.transport.resp_code = \
                 p_ctx.out_protocol.fault_to_http_response_code(error)
 
-        self.get_out_string(p_ctx)
+        try:
+            self.get_out_string(p_ctx)
 
-        # consume the generator to get the length
-        p_ctx.out_string = list(p_ctx.out_string)
+            # consume the generator to get the length
+            p_ctx.out_string = list(p_ctx.out_string)
+
+        except Exception as e:
+            # The fault itself could not be serialized -- eg. its detail is
+            # not something the output protocol can represent. The client
+            # still gets a response, not a crashed gateway.
+            logger.exception(e)
+
+            p_ctx.out_error = Fault('Server',
+                                            get_fault_string_from_exception(e))
+            p_ctx.out_document = None
+            p_ctx.out_string = None
+            p_ctx.transport.resp_code = \
+                p_ctx.out_protocol.fault_to_http_response_code(p_ctx.out_error)
+
+            self.get_out_string(p_ctx)
+            p_ctx.out_string = list(p_ctx.out_string)
 
         p_ctx.transport.resp_headers['Content-Length'] = \
                                     str(sum((len(s) for s in p_ctx.out_string)))
